@@ -4,3 +4,4 @@ import Aiorpcx.C11.Props
 import Aiorpcx.C12.Props
 import Aiorpcx.C09.Props
 import Aiorpcx.C10.Props
+import Aiorpcx.C15.Props
